@@ -229,6 +229,15 @@ theorem all_covered : directiveNames =
      "LookupTransport", "LookupRpcService", "LookupRpcClient", "LookupHTTPHandler", "SignalPeer", "GetPeer",
      "HandleSignalPeer", "BuildChannelSubscription", "DiscoverRoutes"] := rfl
 
+/-- …and those are ALL of them: the translator walks the whole repository on every run and lists
+every method `IsEquivalent(directive.Directive)` of a non-test Go file; that list is exactly the
+list of implementations the definitions above were generated from. A directive type added to the
+repository with its own IsEquivalent (or one moved / renamed) breaks this proof until it is
+covered (audit row 46). -/
+theorem all_implementations_covered : scannedImplementations = coveredImplementations := by decide
+
+theorem all_implementations_count : scannedImplementations.length = directiveNames.length := by decide
+
 /-- …and the cross-type statements range over exactly those types. -/
 theorem all_kinds_covered : Kind.all.length = directiveNames.length ∧ ∀ k : Kind, k ∈ Kind.all := by
   refine ⟨rfl, ?_⟩
